@@ -317,7 +317,7 @@ theorem skipLoop_W1 {W : Widths} (hW : W1 W) (line : Text) :
     | zero => simp [skipLoop]
     | succ h =>
       rw [skipLoop, if_pos (by omega)]
-      have : ((h + 1 : Nat) : Int) - (W.rw c : Nat) = (h : Int) := by rw [(hW c).1]; push_cast; omega
+      have : ((h + 1 : Nat) : Int) - (measure W c : Nat) = (h : Int) := by rw [measure_W1 hW]; push_cast; omega
       rw [this, ih h (k + 1) (by simpa using hh)]
       simp; omega
 
